@@ -269,7 +269,7 @@ def _model_values(s, itf):
     return vals
 
 
-def solve(constraints, timeout_ms=10000, goal=()):
+def solve(constraints, timeout_ms=10000, goal=(), small_first=False):
     """('unsat', None) | ('sat', {name: int value of each original bit-vector constant}) | ('unknown', reason).
     Non-linear integer solving is sensitive to the shape of the query: the whole query is tried first and, when a goal is
     given, the goal-directed slice second."""
@@ -297,6 +297,18 @@ def solve(constraints, timeout_ms=10000, goal=()):
             r2 = _cvc5_unsat(s, timeout_ms / 1000.0 / (len(attempts) + 1))
             if r2:
                 return 'unsat', None, itf_k
+    if small_first:
+        # when a model is what is wanted (vacuity guards, known-finding regions): look among small values; a model of the
+        # query with extra bounds is a model of the query
+        for bound in (16, 1 << 10, 1 << 20, 1 << 40):
+            s0 = z3.Solver()
+            s0.set('timeout', int(min(timeout_ms, 8000)))
+            s0.add(full)
+            for name, (orig, v) in itf.vars.items():
+                if orig.size() >= 64:
+                    s0.add(v <= bound)
+            if s0.check() == z3.sat:
+                return 'sat', _model_values(s0, itf), itf
     return 'unknown', why, itf
 
 
